@@ -135,7 +135,15 @@ async def run_history(
             continue
         if kind == "send":
             _k, fields, buffer = op
-            expected = model.send_set(fields, buffer)
+            key = (fields[0], fields[1], fields[4])
+            had_key = key in model.parked
+            flushed_before = fields[0] in info.setdefault("flushed_nodes", set())
+            expected = model.send_set(fields, True if buffer is None else buffer)
+            if not expected:
+                if had_key:
+                    classes["park-overwrite"] += 1
+                if flushed_before:
+                    classes["re-park-after-flush"] += 1
             status, value = await env.send(gateway, env.mk_message(fields), buffer)
             got = transport.writes_at(idx)
             classes["send-parked" if not expected else "send-direct"] += 1
@@ -227,6 +235,9 @@ async def run_history(
                 expected_rest += model.parked_for(pred.flush_node)
                 if model.parked_for(pred.flush_node):
                     classes["wake-with-parked"] += 1
+                    info.setdefault("flushed_nodes", set()).add(pred.flush_node)
+                if any(k[0] != pred.flush_node for k in model.parked):
+                    classes["wake-while-other-node-parked"] += 1
         observed: dict[str, Any] = {
             "snapshot": rec.after,
             "protocol_version": gateway.protocol_version,
